@@ -15,11 +15,11 @@ theorem facts_object_Point_SetLon :
 
 /-- numeric literals of `object.(*Point).SetLat` -/
 theorem facts_object_Point_SetLat :
-    Gen.funcFacts.lookup "object.(*Point).SetLat" = some ["f:4635685358059997190", "i:0", "i:10"] := by decide
+    Gen.funcFacts.lookup "object.(*Point).SetLat" = some ["f:4635685358059997190", "i:10"] := by decide
 
 /-- numeric literals of `shape.getHorizontalTileIdOnPoint` -/
 theorem facts_shape_getHorizontalTileIdOnPoint :
-    Gen.funcFacts.lookup "shape.getHorizontalTileIdOnPoint" = some ["i:1", "i:180", "i:2", "i:360"] := by decide
+    Gen.funcFacts.lookup "shape.getHorizontalTileIdOnPoint" = some ["i:180", "i:2", "i:360"] := by decide
 
 /-- numeric literals of `shape.getVerticalTileIdOnAltitude` -/
 theorem facts_shape_getVerticalTileIdOnAltitude :
@@ -27,7 +27,7 @@ theorem facts_shape_getVerticalTileIdOnAltitude :
 
 /-- numeric literals of `shape.getVertexOnVoxelOffset` -/
 theorem facts_shape_getVertexOnVoxelOffset :
-    Gen.funcFacts.lookup "shape.getVertexOnVoxelOffset" = some ["i:0", "i:1", "i:180", "i:2", "i:360"] := by decide
+    Gen.funcFacts.lookup "shape.getVertexOnVoxelOffset" = some ["i:180", "i:2", "i:360"] := by decide
 
 /-- the latitude limit literal of SetLat is the binary64 value the model uses -/
 theorem lat_limit : F64.toBits SpatialId.latLimit = 4635685358059997190 := by decide +kernel
